@@ -331,7 +331,16 @@ func (a *List) M__rmul__(other Object) (Object, error) {
 }
 
 func (a *List) M__imul__(other Object) (Object, error) {
-	return a.M__mul__(other)
+	if b, ok := convertToInt(other); ok {
+		items, err := sequenceRepeat(a.Items, b)
+		if err != nil {
+			return nil, err
+		}
+		// Change the list in place so that other references see it
+		a.Items = items
+		return a, nil
+	}
+	return NotImplemented, nil
 }
 
 // Check interface is satisfied
